@@ -1,5 +1,7 @@
 import Mimic.Control
 import Mimic.Framing
+import Mimic.Cursor
+import Mimic.ResultsTables
 /-! Line-protocol driver pieces: one `handle` per domain. Unknown input is answered `bad-op`, never defaulted. -/
 namespace Mimic.Drv
 
@@ -31,6 +33,7 @@ structure St where
   frm : Mimic.Framing.St := Mimic.Framing.init 0
   wr : Mimic.Framing.WSt := { pending := [], seq := 0, sent := [] }
   wrB : Nat := 32768
+  cur : Mimic.Cursor.Reg := Mimic.Cursor.Reg.empty
 
 def ctl (st : St) : List String → St × String
   | ["new", sid] => match sid.toNat? with
@@ -111,11 +114,114 @@ def wr (st : St) : List String → St × String
       ({ st with wr := w }, s!"{w.pending.length} {w.seq} " ++ ",".intercalate ((w.sent.drop before).map showChunk))
   | _ => (st, "bad-op")
 
+def showNats (l : List Nat) : String := ",".intercalate (l.map toString)
+
+def showOut : Mimic.Cursor.Out → String
+  | .ok => "ok"
+  | .none => "none"
+  | .rows rs .cursorExists => "rows:" ++ showNats rs ++ ":CE"
+  | .rows rs .lastRowSent => "rows:" ++ showNats rs ++ ":LR"
+  | .rowsErr [] => "err"        -- on the wire: no row, one ERR
+  | .rowsErr rs => "rowserr:" ++ showNats rs
+  | .opened => "opened"
+  | .result rs => "result:" ++ showNats rs
+  | .resultErr rs => "resulterr:" ++ showNats rs
+  | .err => "err"
+
+def curStep (st : St) (c : Mimic.Cursor.Cmd) : St × String :=
+  let r := Mimic.Cursor.step st.cur c
+  ({ st with cur := r.1 }, showOut r.2)
+
+def cur (st : St) : List String → St × String
+  | ["reset"] => ({ st with cur := Mimic.Cursor.Reg.empty }, "ok")
+  | ["prepare"] => let id := st.cur.next; let r := curStep st .prepare; (r.1, toString id)
+  | ["exec", id, c, "fail"] => match id.toNat? with
+      | some id => curStep st (.execute id (c == "1") none)
+      | none => (st, "bad-op")
+  | ["exec", id, c, base, n, boom] => match id.toNat?, base.toNat?, n.toNat? with
+      | some id, some b, some n =>
+          curStep st (.execute id (c == "1") (some { rows := (List.range n).map (· + b), boom := boom == "1" }))
+      | _, _, _ => (st, "bad-op")
+  | ["fetch", id, n] => match id.toNat?, n.toNat? with
+      | some id, some n => curStep st (.fetch id n)
+      | _, _ => (st, "bad-op")
+  | ["rst", id] => match id.toNat? with
+      | some id => curStep st (.reset id)
+      | none => (st, "bad-op")
+  | ["close", id] => match id.toNat? with
+      | some id => curStep st (.close id)
+      | none => (st, "bad-op")
+  | _ => (st, "bad-op")
+
+/-! results -/
+
+def parseInt (s : String) : Option Int := s.toInt?
+
+def parseVal (s : String) : Option Mimic.Results.Val :=
+  match s.toList with
+  | ['N'] => some .null
+  | 'I' :: r => (parseInt (String.ofList r)).map .int
+  | 'S' :: r => (unhex (String.ofList r)).map .str
+  | 'F' :: r => match (String.ofList r).splitOn "/" with
+      | [a, b, c] => match unhex a, unhex b, unhex c with
+        | some a, some b, some c => some (.flt a b c)
+        | _, _, _ => none
+      | _ => none
+  | 'D' :: r => match ((String.ofList r).splitOn "/").map String.toNat? with
+      | [some y, some m, some d] => some (.date y m d)
+      | _ => none
+  | 'T' :: r => match ((String.ofList r).splitOn "/").map String.toNat? with
+      | [some y, some mo, some d, some h, some mi, some s, some us] => some (.datetime y mo d h mi s us)
+      | _ => none
+  | 'U' :: r => (parseInt (String.ofList r)).map .dur
+  | _ => none
+
+def optAllL {α : Type} : List (Option α) → Option (List α)
+  | [] => some []
+  | none :: _ => none
+  | some a :: rest => (optAllL rest).map (a :: ·)
+
+def res (_st : St) : List String → String
+  | "bin" :: n :: rest => match n.toNat? with
+      | some n => match optAllL ((rest.take n).map String.toNat?), optAllL ((rest.drop n).map parseVal) with
+        | some codes, some vals => match Mimic.Results.binRow (codes.map Mimic.Results.binEnc) vals with
+          | some b => hex b
+          | none => "raise"
+        | _, _ => "bad-op"
+      | none => "bad-op"
+  | "text" :: n :: rest => match n.toNat? with
+      | some n => match optAllL ((rest.take n).map String.toNat?), optAllL ((rest.drop n).map parseVal) with
+        | some codes, some vals => match Mimic.Results.textRow (codes.map Mimic.Results.textEnc) vals with
+          | some b => hex b
+          | none => "raise"
+        | _, _ => "bad-op"
+      | none => "bad-op"
+  | ["infer", py] => toString (Mimic.Results.inferCode py)
+  | "peek" :: todo :: ncols :: cells => match ncols.toNat? with
+      | some nc =>
+          if nc = 0 then "bad-op" else
+          let td := if todo = "-" then some [] else optAllL ((todo.splitOn ",").map String.toNat?)
+          match td with
+          | some td =>
+            let vals : List Mimic.Results.Val := cells.map (fun c => if c = "N" then .null else .int 0)
+            let rec chunk (fuel : Nat) (l : List Mimic.Results.Val) : List (List Mimic.Results.Val) :=
+              match fuel with
+              | 0 => []
+              | f + 1 => if l.isEmpty then [] else l.take nc :: chunk f (l.drop nc)
+            let rows := chunk (vals.length + 1) vals
+            let p := Mimic.Results.peek td [] rows
+            s!"{p.1.length} {showNats p.2.2} {(Mimic.Results.afterInfer td rows).length}"
+          | none => "bad-op"
+      | none => "bad-op"
+  | _ => "bad-op"
+
 def handle (st : St) (line : String) : St × String :=
   match words line with
   | "ctl" :: rest => ctl st rest
   | "frm" :: rest => frm st rest
   | "wr" :: rest => wr st rest
+  | "cur" :: rest => cur st rest
+  | "res" :: rest => (st, res st rest)
   | _ => (st, "bad-op")
 
 end Mimic.Drv
